@@ -69,7 +69,12 @@ def observe(path, feats):
     with h5py.File(path, "r") as h5:
         ev = h5.get("events", {})
         for f in feats:
-            if f not in ev:
+            if f.startswith("trace/"):
+                # a single trace channel
+                ch = f.split("/")[1]
+                out["h5py"][f] = gen.decode_trace(ev["trace"][ch][:], ch) \
+                    if "trace" in ev and ch in ev["trace"] else []
+            elif f not in ev:
                 out["h5py"][f] = []
             elif f == "trace":
                 out["h5py"][f] = {nm: gen.decode_trace(ev[f][nm][:], nm)
@@ -90,7 +95,15 @@ def observe(path, feats):
     if any(out["h5py"][f] for f in feats):
         with dclab.new_dataset(path) as ds:
             for f in feats:
-                if f in ds.features_innate:
+                if f.startswith("trace/"):
+                    ch = f.split("/")[1]
+                    try:
+                        out["dclab"][f] = gen.decode_trace(
+                            np.asarray(ds["trace"][ch][:]), ch) \
+                            if "trace" in ds and ch in ds["trace"] else []
+                    except Exception as exc:
+                        out["dclab"][f] = "raised " + type(exc).__name__
+                elif f in ds.features_innate:
                     try:
                         out["dclab"][f] = gen.read_feature_ids(ds, f) \
                             if f != "index" else [int(v) for v in ds[f][:]]
@@ -185,7 +198,8 @@ def _replay(job):
                 hw.__enter__()
                 if not meta_done or st["mode"] == "reset":
                     m = {k: dict(v) for k, v in gen.META.items()}
-                    if "trace" not in feats and "fl1_max" not in feats:
+                    if not any(f_.startswith("trace") for f_ in feats) \
+                            and "fl1_max" not in feats:
                         m.pop("fluorescence")
                     hw.store_metadata(m)
                     if "tables" not in hw.h5file or \
@@ -195,7 +209,11 @@ def _replay(job):
             elif a == "store":
                 steps.append("%s+%d" % (st["f"], st["n"]))
                 ids = list(range(st["first"], st["first"] + st["n"]))
-                hw.store_feature(st["f"], gen.encode(st["f"], ids))
+                if st["f"].startswith("trace/"):
+                    ch = st["f"].split("/")[1]
+                    hw.store_feature("trace", {ch: gen.trace(ids)[ch]})
+                else:
+                    hw.store_feature(st["f"], gen.encode(st["f"], ids))
             elif a == "storelog":
                 steps.append("log:" + ",".join(st["classes"]))
                 lines = [line(c, st["first"] + k)
@@ -612,6 +630,7 @@ def main(tier, seed, replay=None):
     try:
         plans = [("FeatsA", "NoLogs", 1), ("FeatsB", "NoLogs", 1),
                  ("FeatsC", "NoLogs", 1), ("FeatsD", "NoLogs", 1),
+                 ("FeatsE", "NoLogs", 1),
                  ("NoFeats", "Logs1", 1)]
         for feats, logs, ml in plans:
             islog = feats == "NoFeats"
